@@ -1119,7 +1119,9 @@ pub fn hook_clock(clk: i32) -> Option<u64> {
     }
     let v = s.clock_ns + s.slots[me].clock_off;
     if s.log_clock {
-        s.clock_log.push((me, clk, v));
+        // clock reads join the probe history (kind 100 + clock id), so a reference model can walk one
+        // totally ordered per-thread event stream
+        s.probes.push(ProbeEv { step: s.stats.steps, tid: me, kind: 100 + clk as u32, a: idx, b: 0, clock: v });
     }
     s.ev(me, Pt::Clock, clk as u64, v);
     if !s.quiet {
